@@ -57,7 +57,7 @@ def k1_verdict_corpus(ctx):
 
 
 def k1_verdict(ctx):
-    exp = ctx.stage('expander', stages.expander_build)
+    exp = ctx.stage('expander', lambda: stages.expander_build(ctx.dir))
     if not exp['ok']:
         return {'ok': False, 'why': 'expander does not build against /repo', 'log': exp['log']}
     cases = k1_verdict_corpus(ctx)
@@ -371,7 +371,7 @@ def k1_names(ctx):
     up to length 4 (quick) / 5 (thorough) and on the identifier pools"""
     import itertools
     import subprocess
-    exp = ctx.stage('expander', stages.expander_build)
+    exp = ctx.stage('expander', lambda: stages.expander_build(ctx.dir))
     if not exp['ok']:
         return {'ok': False, 'why': 'expander does not build against /repo'}
     alpha = 'aA1_bB2'
